@@ -332,6 +332,30 @@ class Arr(object):
     def swapaxes(self, a, b):
         return swapaxes(self, a, b)
 
+    def trace(self, offset=0, axis1=0, axis2=1):
+        return trace(self, offset, axis1, axis2)
+
+    def diagonal(self, offset=0, axis1=0, axis2=1):
+        return diagonal(self, offset, axis1, axis2)
+
+    def prod(self, axis=None, keepdims=False):
+        return reduce_("prod", self, axis, keepdims)
+
+    def any(self, axis=None, keepdims=False):
+        return reduce_("any", self, axis, keepdims)
+
+    def all(self, axis=None, keepdims=False):
+        return reduce_("all", self, axis, keepdims)
+
+    def dot(self, other):
+        return self @ other
+
+    def repeat(self, repeats, axis=None):
+        return repeat(self, repeats, axis)
+
+    def take(self, indices, axis=None):
+        return take(self, indices, axis)
+
     def copy(self):
         return Arr(self.shape, None if self.elems is None else list(self.elems), self.dtype, self.geo)
 
@@ -903,6 +927,73 @@ def trace(a, offset=0, axis1=0, axis2=1, dtype=None, out=None):
     for t in terms[1:]:
         acc = acc + t
     return acc
+
+
+def diagonal(a, offset=0, axis1=0, axis2=1):
+    """numpy.diagonal: the diagonals of the (axis1, axis2) planes as a new last axis."""
+    a = as_arr(a)
+    if a.ndim < 2:
+        raise AbstractError("diagonal needs at least 2 dimensions")
+    m = moveaxis(a, (_as_int(axis1), _as_int(axis2)), (-2, -1))
+    n1, n2 = m.shape[-2], m.shape[-1]
+    offset = _as_int(offset)
+    terms = [m[(Ellipsis, i, i + offset)] for i in range(n1) if 0 <= i + offset < n2]
+    if not terms:
+        return zeros(m.shape[:-2] + (0,))
+    return stack(terms, -1)
+
+
+def rot90(m, k=1, axes=(0, 1)):
+    m = as_arr(m)
+    ax0, ax1 = _as_int(axes[0]) % m.ndim, _as_int(axes[1]) % m.ndim
+    if ax0 == ax1:
+        raise AbstractError("rot90: axes must be different")
+    k = _as_int(k) % 4
+    if k == 0:
+        return m
+    if k == 2:
+        return flip(flip(m, ax0), ax1)
+    if k == 1:
+        return swapaxes(flip(m, ax1), ax0, ax1)
+    return flip(swapaxes(m, ax0, ax1), ax1)
+
+
+def atleast_nd(a, n):
+    a = as_arr(a)
+    if n == 1 and a.ndim == 0:
+        return reshape(a, (1,))
+    if n == 2 and a.ndim < 2:
+        return reshape(a, (1, -1)) if a.ndim == 1 else reshape(a, (1, 1))
+    if n == 3 and a.ndim < 3:
+        if a.ndim == 0:
+            return reshape(a, (1, 1, 1))
+        if a.ndim == 1:
+            return reshape(a, (1, a.shape[0], 1))
+        return reshape(a, a.shape + (1,))
+    return a
+
+
+def vstack(arrs):
+    return concatenate([atleast_nd(x, 2) for x in arrs], 0)
+
+
+def hstack(arrs):
+    arrs = [atleast_nd(x, 1) for x in arrs]
+    return concatenate(arrs, 0 if arrs and arrs[0].ndim == 1 else 1)
+
+
+def dstack(arrs):
+    return concatenate([atleast_nd(x, 3) for x in arrs], 2)
+
+
+def append(arr, values, axis=None):
+    if axis is None:
+        return concatenate([reshape(as_arr(arr), (-1,)), reshape(as_arr(values), (-1,))], 0)
+    return concatenate([as_arr(arr), as_arr(values)], axis)
+
+
+def full_like(a, val, dtype=None):
+    return full(as_arr(a).shape, val, dtype)
 
 
 def stack(arrs, axis=0):
